@@ -89,13 +89,13 @@ def parseClass (s : String) : Option (List Nat × HMember) :=
 
 def HMember.toMember : HMember → Option (Member Tag)
   | .absent => none
-  | .fn m => some (.fn (m.raw .any))
+  | .fn m => some (m.member .any)
   | .prop t s => some (.prop t s)
 
 def showNats (l : List Nat) : String := ",".intercalate (l.map toString)
 
 def pairClasses : HMember → HMember → List String
-  | .fn b, .fn c => d07FnClasses liveTyRel b c
+  | .fn b, .fn c => d07FnClasses b c
   | .prop bt bs, .prop ct cs => if propSpecOk tagIncl bt bs ct cs then [] else ["propSpecFails"]
   | _, _ => []
 
